@@ -303,5 +303,5 @@ func fmtMap(m map[string]string) string {
 }
 
 func TestC08(t *testing.T) {
-	drv.Main(t, drv.Driver{ID: "C08", Gen: gen08, Run: run08, CaseTimeout: 4 * time.Minute})
+	drv.Main(t, drv.Driver{ID: "C08", Gen: gen08, Run: run08, CaseTimeout: 15 * time.Minute})
 }
